@@ -201,7 +201,7 @@ fn parse_labels(s: &str) -> Result<(Vec<(String, String)>, usize), (&'static str
 
 pub fn parse(body: &[u8]) -> Exposition {
     let mut ex = Exposition::default();
-    let mut err = |ex: &mut Exposition, line: usize, kind: &'static str, detail: String| {
+    let err = |ex: &mut Exposition, line: usize, kind: &'static str, detail: String| {
         ex.errors.push(SyntaxError { line, kind, detail });
     };
     let text = match std::str::from_utf8(body) {
